@@ -102,6 +102,23 @@ class Dct(Sort):
         return f"Dct({list(self.fields)})"
 
 
+class Cplx(Sort):
+    """A symbolic complex number (pointwise array element)."""
+
+    def __repr__(self):
+        return "Cplx"
+
+
+class RowArr(Sort):
+    """Pointwise view of an array (..., d) with symbolic entries along the last axis."""
+
+    def __init__(self, *elems):
+        self.elems = elems
+
+    def __repr__(self):
+        return f"RowArr{self.elems!r}"
+
+
 class Opq(Sort):
     """Uninterpreted value (arrays, waves, ...) of a named abstract sort."""
 
@@ -206,6 +223,14 @@ def instantiate(ctx, sort, name, idx=()):
         return s
     if isinstance(sort, Dct):
         return {k: instantiate(ctx, fs, f"{name}[{k}]", idx) for k, fs in sort.fields.items()}
+    if isinstance(sort, Cplx):
+        from .values import SymC
+
+        return SymC(Sym(z3.Real(f"{name}.re"), "real"), Sym(z3.Real(f"{name}.im"), "real"))
+    if isinstance(sort, RowArr):
+        from .externals import PRow
+
+        return PRow([instantiate(ctx, e, f"{name}.{k}", idx) for k, e in enumerate(sort.elems)])
     if isinstance(sort, Obj):
         mod = extract.load_module(sort.module)
         cls = mod.classes.get(sort.cls)
@@ -336,6 +361,12 @@ def _spec_helpers():
     def num_observed(I, args, kw):
         obs = getattr(I.ctx, "observations", [])
         return len([o for o in obs if len(args) == 0 or o["op"] == args[0]])
+
+    @reg("row")
+    def row(I, args, kw):
+        from .externals import PRow
+
+        return PRow(list(args))
 
     @reg("origin")
     def origin(I, args, kw):
